@@ -57,6 +57,16 @@ NOTES = {
  "C08-seed5": "missed by C08 and C09 as they stood (the grammar was pure ASCII); caught by both since two string literals outside ASCII (2-, 3- and 4-byte characters) are leaves",
  "C09-seed5": "missed by C09 as it stood (no identity path inserted rows next to whole-column references) but caught by C08; C09 catches it since the clause identity-insert-on-the-other-axis was added",
  "C10-seed5": "missed by C10 as it stood (every coordinate was below row 30); caught since the `magnitudes` space (cells at rows beyond 16384, 65536, 10^6 and at column 16000; 10-operation alphabet without the operations that fill whole rows/columns) was added",
+ "C11-seed5": "MISSED and not answered: the change removes failure-atomicity (a sheet whose materialisation panics half-way is afterwards treated as loaded); it needs a valid file that makes the reader panic. The seed used a linked picture (<a:blip r:link>), which was a genuine reader defect of its own (C03-K7, repaired 65ea4d2: C03 now has that file); with it repaired no valid input of the alphabets makes a sheet access fail, and injecting a failure into the reader would need a hook inside the per-sheet parser. Recorded as a limit of the current machinery",
+ "C12-seed5": "missed by C12 (its texts are plain) and by C01 as it stood; caught by C01 since the value alphabet has font-less rich texts: two runs and one run spelling their concatenation with None / null / nothing / | in between",
+ "C13-seed5": "caught by C13 as it stood (sink space: a no-fault case follows faulted ones in the same process); the explicit aftermath clause (healthy save after every faulted one) was added as well",
+ "C14-seed5": "missed by C14 as it stood (every set_password source was a regular file); caught since the second save of every set_password case reads from a named pipe fed by another thread",
+ "C15-seed5": "missed by C15 as it stood (the preset only planted a legacy hash); caught since the preset also plants a foreign verifier (SHA-256, 1000 spins, salt, hash) that set_password must replace consistently",
+ "C16-seed5": "caught by C16 as it stood (configuration with a shared reference and a clone, hooks 10-12 added by the change itself)",
+ "C17-seed5": "missed by C17 and C07 as they stood (no range was printed, moved by a structural edit and printed again); caught since the `range-history` space was added (merged / conditional-format / auto-filter range printed, sheet edited, printed again: the text must spell the corners the getters report)",
+ "C18-seed5": "missed by C18 as it stood (no format code started with a quoted literal or had two adjacent ones); caught since three such codes are among the displayed formats",
+ "C19-seed5": "caught by C19 as it stood (negative values below 1 under thousands-separator patterns)",
+ "C20-seed5": "missed by C20 as it stood but caught by C13 (sink space); C20 catches it since every case starts with an export of a decoy sheet into a writer that refuses every byte",
  "C09-seed2": "caught by C09 as it stood (translate clause: a reference leaving the grid followed by another reference) and by C03 (shared-edge family)",
 
  "C11-seed1": "missed by the check as it stood when the seed arrived (exit 0: no operation of the alphabet made a materialised sheet need a NEW numbered dependent part); caught after the edit operation also adds a comment (clause saved-content-equals-eager, the unloaded sheet's comments are replaced)",
